@@ -16,7 +16,7 @@ def translate(mesh : Mesh, tr : Vec) -> Mesh:
         Mesh: the translated mesh
     """
     for i in mesh.id_vertices:
-        mesh.vertices[i] += tr
+        mesh.vertices[i] = mesh.vertices[i] + tr # rebind: the old coordinate array may be shared (caller's array, another mesh)
     return mesh
 
 def rotate(mesh : Mesh, rot : Rotation, orig : Vec = None) -> Mesh:
